@@ -91,7 +91,7 @@ theorem facts_shape :
     ∧ relatedDeletedFilter = ["s.deletedDatasets[datasetID] || !datasetIncluded", "s.deletedDatasets[datasetID] || !datasetIncluded"] := by decide
 
 -- non-vacuity: data of a deleted dataset is gone from unscoped lookups, other datasets stay
-example : let e : Ent := ⟨1, false, [(5, 2)], "a"⟩
+example : let e : Ent := ⟨1, false, [(5, 2)], "a", []⟩
     let db := storeBatch (storeBatch {} 2 10 [e]) 3 20 [e]
     (partialsAt (markDeleted db 2) 1 99 []).1.length = 1 ∧ (partialsAt db 1 99 []).1.length = 2
     ∧ (gc (markDeleted db 2)).versions.length = 1
